@@ -12,6 +12,60 @@ EdgePred = Callable[[Node, Optional[str]], bool]  # (test node, label) -> justif
 NodePred = Callable[[Node], bool]
 
 
+def _def_truth(d: Node) -> Optional[bool]:
+    if getattr(d, "truth", None) is not None:
+        return d.truth
+    v = getattr(d.ast, "value", None)
+    if isinstance(v, ast.Constant):
+        return bool(v.value)
+    return None
+
+
+def flag_edge_justified(g: CFG, n: Node, lab, justified: EdgePred, start: Optional[int], depth: int = 0) -> bool:
+    """A test on a plain local flag:  `ok = a and b ... ; if ok:`.  The edge (ok, lab) is as good as a
+    justified edge when every definition of the flag that can make this edge feasible is itself
+    reachable only across justified edges (definitions with the opposite known truthiness make the
+    edge infeasible and are ignored)."""
+    if depth > 2 or n.kind != "test" or not isinstance(n.ast, ast.Name) or lab not in ("T", "F"):
+        return False
+    defs = reaching_defs(g, n.id, n.ast.id)
+    if not defs:
+        return False
+    feasible = []
+    for d in defs:
+        if d.kind != "stmt" or not isinstance(d.ast, (ast.Assign, ast.AnnAssign)):
+            return False
+        tr = _def_truth(d)
+        if tr is not None and tr != (lab == "T"):
+            continue  # this definition cannot take the edge
+        feasible.append(d)
+    if not feasible:
+        return True  # edge infeasible
+    plain = g.reach([g.entry if start is None else start])
+    for d in feasible:
+        if d.id not in plain:
+            return False  # defined before the region under analysis: nothing is known about it
+        v = getattr(d.ast, "value", None)
+        if v is not None and not isinstance(v, ast.Constant):
+            # `flag = E` followed by `if flag:` is the test `if E:` in disguise
+            pseudo = Node(-1, "test", v, loops=d.loops)
+            try:
+                if justified(pseudo, lab):
+                    continue
+            except Exception:  # noqa: BLE001
+                pass
+        def j2(t, l, depth=depth):
+            return justified(t, l) or (t.id != n.id and flag_edge_justified(g, t, l, justified, start, depth + 1))
+
+        def skip_edge(a, l, b):
+            return a.kind in ("test", "for") and l in ("T", "F") and j2(a, l)
+
+        reached = g.reach([g.entry if start is None else start], skip_edge=skip_edge)
+        if d.id in reached:
+            return False
+    return True
+
+
 def cut(
     g: CFG,
     sinks: Iterable[int],
@@ -20,13 +74,25 @@ def cut(
     ignore_exc: bool = False,
 ) -> Optional[List[Tuple[int, Optional[str]]]]:
     """CUT: remove every justified branch edge; return None when no sink is
-    reachable from start (entry by default), else a witness path."""
+    reachable from start (entry by default), else a witness path.  Tests on boolean flags that were
+    computed from justified conditions count as justified (see flag_edge_justified)."""
     sinks = set(sinks)
+    memo: Dict[Tuple[int, Optional[str]], bool] = {}
 
     def skip_edge(n: Node, lab, d: Node) -> bool:
         if ignore_exc and lab == "exc":
             return True
-        return n.kind in ("test", "for") and lab in ("T", "F") and justified(n, lab)
+        if not (n.kind in ("test", "for") and lab in ("T", "F")):
+            return False
+        if justified(n, lab):
+            return True
+        if n.kind == "test" and isinstance(n.ast, ast.Name):
+            k = (n.id, lab)
+            if k not in memo:
+                memo[k] = False  # guard against recursion through the same node
+                memo[k] = flag_edge_justified(g, n, lab, justified, start)
+            return memo[k]
+        return False
 
     reached = g.reach([g.entry if start is None else start], skip_edge=skip_edge)
     for s in sinks:
@@ -462,3 +528,23 @@ def eq_edge(t: Node, lab: Optional[str], a: str, b: str) -> Optional[bool]:
     if lab == "F":
         return not is_eq_op
     return None
+
+
+def with_flags(g: CFG, justified: EdgePred, start: Optional[int] = None) -> EdgePred:
+    """Lift an edge predicate so that tests on boolean flags computed from justified conditions count too."""
+    memo: Dict[Tuple[int, Optional[str]], bool] = {}
+
+    def pred(n: Node, lab) -> bool:
+        if not (n.kind in ("test", "for") and lab in ("T", "F")):
+            return False
+        if justified(n, lab):
+            return True
+        if n.kind == "test" and isinstance(n.ast, ast.Name):
+            k = (n.id, lab)
+            if k not in memo:
+                memo[k] = False
+                memo[k] = flag_edge_justified(g, n, lab, justified, start)
+            return memo[k]
+        return False
+
+    return pred
